@@ -92,6 +92,10 @@ def ensure_built(verbose: bool = False) -> dict:
         status["error"] = "coq_makefile: " + r.stderr[-2000:]
         stamp.write_text(json.dumps(status))
         return status
+    # the extracted model must come from this build: remove whatever an earlier build left behind
+    for stale in (COQ / "dlmodel.ml", COQ / "dlmodel.mli", COQ / "extract" / "dlmodel.ml", COQ / "extract" / "dlmodel.mli"):
+        stale.unlink(missing_ok=True)
+    (COQ / "extract" / "Extract.vo").unlink(missing_ok=True)
     # -k: keep going so that one broken proof does not hide the state of the others
     r = run(["make", "-k", f"-j{NCPU}"], cwd=COQ, timeout=3000)
     status["make_rc"] = r.returncode
@@ -102,13 +106,14 @@ def ensure_built(verbose: bool = False) -> dict:
         pid = p.stem
         status["props"][pid] = {"compiled": vo_fresh(f"props/{pid}.v"), "assumptions": assumptions.get(pid, [])}
     # model + extraction are needed for the correspondence whatever happens to the proofs
-    ext_ml = COQ / "extract" / "dlmodel.ml"
+    # coqc runs in coq/ (the Makefile's directory), which is where `Extraction "dlmodel.ml"` writes
+    ext_ml = COQ / "dlmodel.ml"
     if not (COQ / "extract" / "Extract.vo").exists() or not ext_ml.exists():
         status["error"] = "extraction failed (see build/make.log)"
         stamp.write_text(json.dumps(status))
         return status
     for f in ("dlmodel.ml", "dlmodel.mli"):
-        (BUILD / f).write_bytes((COQ / "extract" / f).read_bytes())
+        (BUILD / f).write_bytes((COQ / f).read_bytes())
     (BUILD / "driver.ml").write_bytes((VERIF / "ocaml" / "driver.ml").read_bytes())
     r = run(
         ["ocamlfind", "ocamlopt", "-w", "-a", "dlmodel.mli", "dlmodel.ml", "driver.ml", "-o", "dldriver"],
